@@ -12,19 +12,23 @@
 (* value path before fix c8fce4c19) must violate it - the check runs both.   *)
 EXTENDS LLSetup, TLC
 CONSTANTS MaxLen, Variant
-VARIABLES f, c, n, last
+VARIABLES f, c, n, last, ready, served
 
 Configs == [same : BOOLEAN, recompute : BOOLEAN, init : {"F", "U"}, u : BOOLEAN, nsub : 1..2]
 Init == /\ c \in Configs
-        /\ f = SetUpAll(Fresh(c.init), c.same, c.u, c.recompute, c.nsub)
-        /\ n = 0 /\ last = "SetUp"
-\* add_subset_sensitivity needs the sensitivity projector, which set_up creates only when it computes sensitivities
-Request(kind) == /\ n < MaxLen /\ (kind = "AddSens" => c.recompute)
-                 /\ f' = Step(f, kind, c.same, c.u, Variant)
-                 /\ n' = n + 1 /\ last' = kind /\ c' = c
+        /\ f = Fresh(c.init) /\ n = 0 /\ last = "New" /\ ready = FALSE /\ served = FALSE
+\* add_subset_sensitivity needs the sensitivity projector, which set_up creates only when it computes sensitivities.
+\* While the object is not set up a request is refused (nothing changes); otherwise it is served.
+Request(kind) == /\ n < MaxLen /\ (kind = "AddSens" => c.recompute) /\ (kind \in MustRefuse \/ ready)
+                 /\ f' = IF ready THEN Step(f, kind, c.same, c.u, Variant) ELSE f
+                 /\ served' = ready
+                 /\ n' = n + 1 /\ last' = kind /\ UNCHANGED <<c, ready>>
 SetUpAgain == /\ n < MaxLen
               /\ f' = SetUpAll(f, c.same, c.u, c.recompute, c.nsub)
-              /\ n' = n + 1 /\ last' = "SetUp" /\ c' = c
+              /\ n' = n + 1 /\ last' = "SetUp" /\ ready' = TRUE /\ served' = FALSE /\ c' = c
+\* a setter that changes the configuration
+Setter == /\ n < MaxLen /\ n' = n + 1 /\ last' = "Setter" /\ served' = FALSE
+          /\ ready' = ReadyAfterSetter(ready, "set_normalisation_sptr", TRUE) /\ UNCHANGED <<f, c>>
 ReqValue == Request("Value")
 ReqGrad == Request("Grad")
 ReqGradPlusSens == Request("GradPlusSens")
@@ -32,10 +36,12 @@ ReqAddSens == Request("AddSens")
 ReqApproxHess == Request("ApproxHess")
 ReqHessTimes == Request("HessTimes")
 ReqSens == Request("Sens")
-Next == ReqValue \/ ReqGrad \/ ReqGradPlusSens \/ ReqAddSens \/ ReqApproxHess \/ ReqHessTimes \/ ReqSens \/ SetUpAgain
-Spec == Init /\ [][Next]_<<f, c, n, last>>
+Next == ReqValue \/ ReqGrad \/ ReqGradPlusSens \/ ReqAddSens \/ ReqApproxHess \/ ReqHessTimes \/ ReqSens \/ SetUpAgain \/ Setter
+Spec == Init /\ [][Next]_<<f, c, n, last, ready, served>>
 
 Inv == Healthy(f)
+(* a request is served only between a set_up and the next configuration change *)
+Protocol == served => (ready /\ f.dist # "U" /\ f.norm # "U")
 (* whenever the object believes a set-up is current, the belief is true *)
 Belief == /\ (f.dist = "T" /\ f.distOrig # "U") => f.dReal = f.distOrig
           /\ (f.norm = "T" /\ f.normOrig # "U") => f.nReal = f.normOrig
